@@ -1,4 +1,6 @@
 import Proofs.C08.Num
+import Proofs.C08.Core
+import Model.C08.Verify
 import Generated.Script
 /-!
 # C08 — the script engine gives Bitcoin Core's verdict
@@ -34,5 +36,145 @@ theorem encode_num_range (i : Int) (h : ¬ (MIN_SCRIPT_NUM ≤ i ∧ i ≤ MAX_S
 example : encodeNum (-255) = .ok [0xff, 0x80] := by decide
 example : decodeNum [0xff, 0x80] = -255 := by decide
 example : toBool [0, 0, 0x80] = false ∧ toBool [0x80, 0] = true := by decide
+
+
+/-! ## constants: what btclib's source says today is what Core's interpreter says -/
+
+/-- the five script limits, the two number widths, the disabled set, the range Core evaluates when not
+    executing, and the OP_SUCCESSx set, as regenerated from btclib's source, are Core's. -/
+theorem limits_are_Cores :
+    Gen.Script.N_MAX_SCRIPT_ELEMENT_SIZE = Core.MAX_SCRIPT_ELEMENT_SIZE ∧
+    Gen.Script.N_MAX_OPS_PER_SCRIPT = Core.MAX_OPS_PER_SCRIPT ∧
+    Gen.Script.N_MAX_PUBKEYS_PER_MULTISIG = Core.MAX_PUBKEYS_PER_MULTISIG ∧
+    Gen.Script.N_MAX_SCRIPT_SIZE = Core.MAX_SCRIPT_SIZE ∧
+    Gen.Script.N_MAX_STACK_SIZE = Core.MAX_STACK_SIZE ∧
+    Gen.Script.MAX_NUM_SIZE = Core.DEFAULT_MAX_NUM_SIZE ∧
+    Gen.Script.MAX_LOCK_TIME_NUM_SIZE = Core.LOCKTIME_MAX_NUM_SIZE ∧
+    Gen.Script.DISABLED_OP_CODES = Core.DISABLED ∧
+    Gen.Script.EVALUATED_WHEN_UNEXECUTED_LO = Core.OP_IF ∧
+    Gen.Script.EVALUATED_WHEN_UNEXECUTED_HI = Core.OP_ENDIF + 1 :=
+  ⟨rfl, rfl, rfl, rfl, rfl, rfl, rfl, rfl, rfl, rfl⟩
+
+/-- `op_codes_tapscript.OP_SUCCESS` is BIP342's `IsOpSuccess` on every byte. -/
+theorem op_success_is_Cores :
+    (List.range 256).all (fun c => Core.isOpSuccess c == Gen.Script.OP_SUCCESS.contains c) = true := by
+  decide +kernel
+
+/-- btclib's `ScriptFlag` has exactly Core's 21 `SCRIPT_VERIFY_*` names. -/
+theorem flag_names_are_Cores :
+    (Gen.Script.FLAGS.map (·.1)).all (fun n => (Core.FLAG_NAMES.lookup n).isSome) = true ∧
+    (Core.FLAG_NAMES.map (·.1)).all (fun n => (Gen.Script.FLAGS.lookup n).isSome) = true ∧
+    Gen.Script.FLAGS.length = 21 := by decide
+
+/-- the op code bytes the transcription switches on carry the names btclib's table gives them -/
+theorem opcode_numbering :
+    [(Core.OP_IF, "OP_IF"), (Core.OP_NOTIF, "OP_NOTIF"), (Core.OP_ELSE, "OP_ELSE"), (Core.OP_ENDIF, "OP_ENDIF"),
+     (Core.OP_CODESEPARATOR, "OP_CODESEPARATOR"), (Core.OP_CHECKSIG, "OP_CHECKSIG"),
+     (Core.OP_CHECKSIGVERIFY, "OP_CHECKSIGVERIFY"), (Core.OP_CHECKMULTISIG, "OP_CHECKMULTISIG"),
+     (Core.OP_CHECKMULTISIGVERIFY, "OP_CHECKMULTISIGVERIFY"), (0x69, "OP_VERIFY"), (0x6a, "OP_RETURN"),
+     (0x76, "OP_DUP"), (0x87, "OP_EQUAL"), (0x88, "OP_EQUALVERIFY"), (0x93, "OP_ADD"), (0xa5, "OP_WITHIN"),
+     (0xa9, "OP_HASH160"), (0xb1, "OP_CHECKLOCKTIMEVERIFY"), (0xb2, "OP_CHECKSEQUENCEVERIFY"), (0x4f, "OP_1NEGATE"),
+     (0x60, "OP_16"), (0x7a, "OP_ROLL"), (0x82, "OP_SIZE"), (0x9d, "OP_NUMEQUALVERIFY")].all
+      (fun p => Gen.Script.OP_NAMES.lookup p.1 == some p.2) = true ∧
+    Gen.Script.TAPSCRIPT_OP_NAMES.lookup Core.OP_CHECKSIGADD = some "OP_CHECKSIGADD" := by decide
+
+/-! ## T2 — parsing -/
+
+/-- the instruction walk partitions every byte string: the instructions read, written back, followed by the
+    unread tail, are the script (so `serialize (parse s) = s` byte for byte whenever nothing is left unread). -/
+theorem parse_partitions (s : Bytes) : serializeOps (parse s).1 ++ (parse s).2 = s :=
+  parseOps_partition s.length s
+
+/-- the walk stops only where Core's `GetOp` fails: at the end of the script, or on a push (op code 1..78,
+    all four widths) whose length bytes or data run past the end. -/
+theorem parse_stops_where_GetOp_fails (s : Bytes) :
+    getOp (parse s).2 = none ∧
+    ((parse s).2 = [] ∨ ∃ c r, (parse s).2 = c :: r ∧ 0 < c.toNat ∧ c.toNat ≤ 78) := by
+  have h := parseOps_tail s.length s (Nat.le_refl _)
+  exact ⟨h, getOp_none _ h⟩
+
+example : (parse [0x51, 0x4c, 0x02, 0xaa, 0xbb, 0x4d, 0x05]).1.map (·.code) = [0x51, 0x4c] := by decide
+example : (parse [0x51, 0x4c, 0x02, 0xaa, 0xbb, 0x4d, 0x05]).2 = [0x4d, 0x05] := by decide
+
+/-! ## T4 — invariants of Core's evaluator (for every script, stack, flag set, hash function and signature oracle) -/
+
+/-- limits: after every accepted step `|stack| + |altstack| ≤ 1000`. -/
+theorem step_stack_limit (cx : Core.Ctx) (st st' : Core.State) (op : Op) (h : Core.step cx st op = .ok st') :
+    st'.m.stack.length + st'.m.alt.length ≤ 1000 :=
+  Core.step_stack_bound cx st st' op h
+
+/-- limits: the op count never passes 201 on an accepted run (OP_CHECKMULTISIG's key count included). -/
+theorem run_op_count_limit (cx : Core.Ctx) (ops : List Op) (st st' : Core.State)
+    (h0 : st.m.opCount ≤ 201) (h : Core.run cx ops st = .ok st') : st'.m.opCount ≤ 201 :=
+  Core.run_invariant cx (fun s => s.m.opCount ≤ Core.MAX_OPS_PER_SCRIPT)
+    (fun a b op ha hs => Core.step_op_count cx a b op ha hs) ops st st' h0 h
+
+/-- limits: a push of more than 520 bytes is refused even where it does not execute. -/
+theorem oversized_push_rejects (cx : Core.Ctx) (st : Core.State) (op : Op) (h : op.data.length > 520) :
+    Core.step cx st op = .error .PUSH_SIZE :=
+  Core.step_push_size cx st op h
+
+/-- in a branch that is not taken, an op code outside OP_IF..OP_ENDIF changes neither stack nor the condition
+    stack. -/
+theorem unexecuted_branch_is_inert (cx : Core.Ctx) (st st' : Core.State) (op : Op)
+    (hexec : st.vfExec.all id = false) (hrange : Core.inConditionalRange op.code = false)
+    (h : Core.step cx st op = .ok st') :
+    st'.m.stack = st.m.stack ∧ st'.m.alt = st.m.alt ∧ st'.vfExec = st.vfExec :=
+  Core.step_unexecuted cx st st' op hexec hrange h
+
+/-- a script holding a disabled op code at an instruction boundary is refused: executed or not, after an
+    OP_RETURN-free prefix or not, whatever the flags. -/
+theorem disabled_opcode_rejects (cx : Core.Ctx) (stack : List Bytes) (w : Int) (op : Op)
+    (hmem : op ∈ (parse cx.script).1) (hdis : Core.isDisabled op.code = true) :
+    ∃ e, Core.evalWith cx stack w = .error e := by
+  cases h : Core.evalWith cx stack w with
+  | error e => exact ⟨e, rfl⟩
+  | ok out =>
+    obtain ⟨st, hrun, _⟩ := Core.evalWith_ok cx stack out w h
+    obtain ⟨e, he⟩ := Core.run_rejects cx op (fun s => Core.step_disabled cx s op hdis) _ hmem
+      { m := { stack := stack, weightLeft := w } }
+    rw [he] at hrun; cases hrun
+
+/-- an accepted script is balanced: as many OP_IF/OP_NOTIF as OP_ENDIF, and nothing left unread. -/
+theorem accepted_script_is_balanced (cx : Core.Ctx) (stack out : List Bytes) (w : Int)
+    (h : Core.evalWith cx stack w = .ok out) :
+    Core.closes (parse cx.script).1 = Core.opens (parse cx.script).1 ∧ (parse cx.script).2 = [] := by
+  obtain ⟨st, hrun, ht, hv, _, _⟩ := Core.evalWith_ok cx stack out w h
+  have := Core.run_vfExec cx _ _ st hrun
+  simp only [hv, List.length_nil] at this
+  exact ⟨by omega, ht⟩
+
+/-- limits: a legacy or segwit-v0 script over 10 000 bytes is refused before anything runs. -/
+theorem oversized_script_rejects (cx : Core.Ctx) (stack : List Bytes) (w : Int)
+    (hsv : cx.sigversion = .BASE ∨ cx.sigversion = .WITNESS_V0) (hlen : cx.script.length > 10000) :
+    Core.evalWith cx stack w = .error .SCRIPT_SIZE := by
+  unfold Core.evalWith
+  have : (cx.sigversion == .BASE || cx.sigversion == .WITNESS_V0) = true := by
+    rcases hsv with e | e <;> simp [e]
+  simp [this, Core.MAX_SCRIPT_SIZE, hlen]
+
+/-- an accepted non-empty script leaves at most 1000 elements. -/
+theorem accepted_stack_limit (cx : Core.Ctx) (stack out : List Bytes) (w : Int)
+    (hne : (parse cx.script).1 ≠ []) (h : Core.evalWith cx stack w = .ok out) : out.length ≤ 1000 := by
+  obtain ⟨st, hrun, _, _, ho, _⟩ := Core.evalWith_ok cx stack out w h
+  cases hops : (parse cx.script).1 with
+  | nil => exact absurd hops hne
+  | cons op ops =>
+    rw [hops] at hrun
+    obtain ⟨s, h1, h2⟩ := Core.run_cons_ok cx op ops _ st hrun
+    have hb := Core.step_stack_bound cx _ s op h1
+    have := Core.run_invariant cx (fun x => x.m.stack.length + x.m.alt.length ≤ Core.MAX_STACK_SIZE)
+      (fun a b o _ hs => Core.step_stack_bound cx a b o hs) ops s st hb h2
+    rw [ho]; simp only [Core.MAX_STACK_SIZE] at this; omega
+
+-- non-vacuity: the hypotheses above are met by concrete programs
+private def demoCx (script : Bytes) : Core.Ctx :=
+  { flags := 0, sigversion := .BASE, hashes := ⟨id, id, id⟩,
+    checker := ⟨fun _ _ _ _ => .ok false, fun _ _ _ _ => some .SCHNORR_SIG⟩, script := script }
+example : Core.evalWith (demoCx [0x51, 0x52, 0x93]) [] = .ok [[3]] := by decide
+example : Core.evalWith (demoCx [0x00, 0x63, 0x7e, 0x68, 0x51]) [] = .error .DISABLED_OPCODE := by decide
+example : Core.evalWith (demoCx [0x00, 0x63, 0x6a, 0x68, 0x51]) [] = .ok [[1]] := by decide
+example : Core.evalWith (demoCx [0x51, 0x63]) [] = .error .UNBALANCED_CONDITIONAL := by decide
+example : Core.evalWith (demoCx [0x68]) [] = .error .UNBALANCED_CONDITIONAL := by decide
 
 end Props.C08
